@@ -239,8 +239,15 @@ def _n(o):
     return f"{type(o).__name__}<{o.fqn}>"
 
 
+def _snap(A):
+    return {n: (id(o), tuple(id(x) for x in o.origins), o.fqn, id(o.source), id(o.position)) for n, o in A.items() if isinstance(o, MultiOrigin)}
+
+
 def check_algebra(rec, k, of, maxlen):
+    from ..core import Watchdog
+
     A = alphabet()
+    snap = _snap(A)
     names = list(A)
     fq = {}
     idx = 0
@@ -254,6 +261,22 @@ def check_algebra(rec, k, of, maxlen):
             case = {"operands": list(combo)}
             rec.count("states")
             rec.sample(case)
+            try:
+                with Watchdog(20):
+                    _one_case(rec, case, ops, fq)
+            except Watchdog.Timeout:
+                rec.violation("C15|timeout", case, "merge / concat / + did not finish within 20 s")
+            except MemoryError:
+                rec.violation("C15|memory", case, "merge / concat / + exhausted memory")
+            if _snap(A) != snap:
+                rec.violation("C15|operand-modified", case, "an operand (an existing multi-origin) was modified by merge_origins / concat_origins / +")
+                A = alphabet()
+                snap = _snap(A)
+
+
+def _one_case(rec, case, ops, fq):
+    if True:
+        if True:
             # merge_origins
             rec.count("transitions"); rec.count("traces"); rec.count("evaluations")
             r = ref_merge(ops)
